@@ -153,8 +153,17 @@ def run(cfg, c):
                 w = cm.boxed(c, c.reals('w', n), 8)
                 c.prove_close('covariance of the draws is the inverse posterior precision: H L L^T w = w', H(L @ (L.T @ w)), w, tol=1e-6, info=fk(cfg, 'covariance'))
             else:
-                c.prove_close('the draw enters linearly: x - x_MAP = L e', dev0, dev0, info=fk(cfg, 'linear'))
-                c.prove('covariance of the draws is the inverse posterior precision: H L L^T w = w', True, info=fk(cfg, 'covariance'))
+                # float replay: read L off the real code at scripted unit draws (the next draw of this context is given the values e_j)
+                L = np.zeros((n, n))
+                for j in range(n):
+                    k = len(c.draws)
+                    for i in range(n):
+                        c.values['rnd%d_normal_%d' % (k, i)] = 1.0 if i == j else 0.0
+                    Sj = BP._sampleMapCholesky(1)
+                    L[:, j] = np.asarray(Sj.samples, dtype=float).reshape(n, -1)[:, 0] - xmap
+                c.prove_close('the draw enters linearly: x - x_MAP = L e', dev0, L @ e0, tol=1e-7, info=fk(cfg, 'linear'))
+                w = cm.boxed(c, c.reals('w', n), 8)
+                c.prove_close('covariance of the draws is the inverse posterior precision: H L L^T w = w', H(L @ (L.T @ w)), w, tol=1e-6, info=fk(cfg, 'covariance'))
         return
     if kind == 'forms':
         A = MATS['2x2']
